@@ -19,14 +19,14 @@ ASSUMPTIONS = ['whether a no-recovery node on a MIXED cycle is re-entered depend
                'cross-thread part explored with real threads (sampled schedules)']
 
 def ties(ctx):
-    n = 1500 if ctx.tier == 'quick' else 100000
+    n = 8000 if ctx.tier == "quick" else 150000
     m = 150 if ctx.tier == 'quick' else 4000
     return [run_cycle(ctx, n, known_keys=KNOWN, flavours='2,0', seed_offset=2), run_conc(ctx, 'c14', 'threads', m, drivers=('dg',))]
 
 def search(ctx, reason):
     t = run_cycle(ctx, 200000, known_keys=KNOWN, flavours='2,0', seed_offset=98, tag='search-cycle')
     for f in t.failures:
-        if f.kind == 'oracle' and f.key not in KNOWN:
+        if f.kind == 'oracle' and f.key not in KNOWN and f.key not in listed_keys():
             return f
     return None
 
